@@ -449,6 +449,8 @@ pub struct World {
     pub parent_flags1: u8,
     /// PATH_TRACE TLV the parent attaches to its Announces (its own upstream path), if any
     pub parent_path: Option<Vec<[u8; 8]>>,
+    /// system time (ns) at which the parent's latest Announce was handed to the kernel
+    pub last_parent_tx_ns: u128,
     /// the path the daemon holds: the last one the parent actually sent (Announces without the TLV leave it alone)
     pub effective_path: Vec<[u8; 8]>,
     /// Delay_Resp frames the daemon's port 2 emitted (sequence ids), and everything else it sent there, by type
@@ -547,6 +549,7 @@ impl World {
             parent_ann: default_parent_ann(),
             parent_flags1: 0,
             parent_path: None,
+            last_parent_tx_ns: 0,
             effective_path: vec![],
             seen_b_delay_resp: vec![],
             seen_b_by_type: [0; 16],
@@ -573,6 +576,7 @@ impl World {
             m.tlvs.insert(0, RTlv { typ: 0x0008, value: p.iter().flat_map(|c| c.iter().copied()).collect() });
         }
         let now = Instant::now();
+        self.last_parent_tx_ns = now_ns();
         if self.a1.send(&m.encode()) {
             for t in tlvs {
                 self.sent.push(SentTlv { at: now, sender: PARENT, tlv: t });
@@ -1936,6 +1940,256 @@ pub fn case_c02(w: &mut World, t: &mut Tape) -> E2eOut {
     E2eOut { out, inconclusive: None }
 }
 
+// ---------------------------------------------------------------- C11 case (what the real daemon's master port announces)
+
+fn announce_carries(m: &RMsg, ann: &RAnnounce, flags1: u8) -> Option<String> {
+    let a = m.announce()?;
+    let f1 = m.header.flags[1];
+    let leap59 = flags1 & 2 != 0;
+    let mut want_f = flags1 & 0x3f;
+    if leap59 {
+        want_f &= !1;
+    }
+    let mut d = vec![];
+    if a.gm_identity != ann.gm_identity {
+        d.push(format!("grandmasterIdentity {:02x?} vs {:02x?}", a.gm_identity, ann.gm_identity));
+    }
+    if (a.gm_priority1, a.gm_priority2) != (ann.gm_priority1, ann.gm_priority2) {
+        d.push(format!("priorities {}/{} vs {}/{}", a.gm_priority1, a.gm_priority2, ann.gm_priority1, ann.gm_priority2));
+    }
+    if (a.gm_class, a.gm_accuracy, a.gm_variance) != (ann.gm_class, ann.gm_accuracy, ann.gm_variance) {
+        d.push(format!("quality {}/{:#x}/{} vs {}/{:#x}/{}", a.gm_class, a.gm_accuracy, a.gm_variance, ann.gm_class, ann.gm_accuracy, ann.gm_variance));
+    }
+    if a.steps_removed != ann.steps_removed + 1 {
+        d.push(format!("stepsRemoved {} vs {}+1", a.steps_removed, ann.steps_removed));
+    }
+    if a.time_source != ann.time_source {
+        d.push(format!("timeSource {:#x} vs {:#x}", a.time_source, ann.time_source));
+    }
+    if f1 & 0x3f != want_f {
+        d.push(format!("flags {:#04x} vs {:#04x}", f1 & 0x3f, want_f));
+    }
+    if flags1 & 4 != 0 && a.utc_offset != ann.utc_offset {
+        d.push(format!("currentUtcOffset {} vs {}", a.utc_offset, ann.utc_offset));
+    }
+    if d.is_empty() {
+        None
+    } else {
+        Some(d.join(", "))
+    }
+}
+
+/// One case: the parent changes what it announces (generated contents, always better than the daemon's own data
+/// set); every Announce the daemon's master port emits from 40 ms after the parent's first changed Announce left the
+/// harness must carry exactly those contents with stepsRemoved + 1. In a third of the cases the parent then falls
+/// silent: once the daemon reports both ports master, its Announces must name the daemon itself as grandmaster with
+/// stepsRemoved 0 and its own priorities; then the parent returns.
+pub fn case_c11(w: &mut World, t: &mut Tape) -> E2eOut {
+    let mut out = CaseOut::new();
+    if !w.steady() {
+        let d = Instant::now() + Duration::from_millis(2000);
+        w.run_until(d);
+        if !w.steady() {
+            return E2eOut { out, inconclusive: Some(format!("daemon not in (Slave, Master) before the case: {:?}", w.port_states())) };
+        }
+    }
+    let mut ann = default_parent_ann();
+    if t.chance(3, 4) {
+        ann.gm_identity = [0x00, 0x1b, 0x19, 0xdd, t.below(256) as u8, t.below(256) as u8, 0, 1 + t.below(200) as u8];
+    }
+    ann.gm_priority1 = t.below(128) as u8;
+    ann.gm_class = *t.pick(&[6u8, 7, 13, 52, 127, 128, 187, 193, 248, 255]);
+    ann.gm_accuracy = *t.pick(&[0x17u8, 0x20, 0x21, 0x2f, 0x31, 0x80, 0xfd, 0xfe]);
+    ann.gm_variance = if t.bool() { 0x4e5d } else { t.below(0x10000) as u16 };
+    ann.gm_priority2 = t.below(256) as u8;
+    ann.steps_removed = if t.chance(1, 4) { *t.pick(&[0u16, 1, 253]) } else { t.below(200) as u16 };
+    ann.utc_offset = if t.bool() { 37 } else { t.range(-400, 400) as i16 };
+    ann.time_source = *t.pick(&[0x10u8, 0x20, 0x30, 0x40, 0x50, 0x60, 0x90, 0xa0]);
+    let flags1 = t.below(64) as u8;
+    let silence = t.chance(1, 3);
+    let rendered = json!({"announced": format!("{:?}", ann), "flags1": flags1, "then_parent_silent": silence});
+    out.render = rendered.clone();
+    w.frames_b.clear();
+    w.keep_frames = true;
+    w.parent_ann = ann;
+    w.parent_flags1 = flags1;
+    // make the change take effect with the very next parent Announce and note when it left
+    w.next_parent = Instant::now();
+    let d = Instant::now() + Duration::from_millis(5);
+    w.run_until(d);
+    let changed_at = w.last_parent_tx_ns;
+    let d = Instant::now() + Duration::from_millis(4 * ANN_MS);
+    w.run_until(d);
+    let frames = std::mem::take(&mut w.frames_b);
+    let mut checked = 0;
+    for (at, m) in &frames {
+        if m.header.msg_type != T_ANNOUNCE || *at < changed_at + 40_000_000 {
+            continue;
+        }
+        checked += 1;
+        if let Some(diff) = announce_carries(m, &ann, flags1) {
+            out.fail("daemon: Announce of the master port does not carry what the parent last announced (stepsRemoved + 1)", format!("{} ; sent {} ms after the parent's changed Announce ; {}", diff, (*at - changed_at) / 1_000_000, rendered));
+            break;
+        }
+    }
+    if checked == 0 && out.violation.is_none() {
+        w.keep_frames = false;
+        return E2eOut { out, inconclusive: Some("no Announce of the master port seen after the change".into()) };
+    }
+    if silence && out.violation.is_none() {
+        let s0 = Instant::now();
+        w.next_parent = s0 + Duration::from_millis(1500);
+        let mut took_over_at = None;
+        while s0.elapsed() < Duration::from_millis(1490) {
+            let d = Instant::now() + Duration::from_millis(50);
+            w.run_until(d);
+            if took_over_at.is_none() && matches!(w.port_states(), Some((a, b)) if a.starts_with("Master") && b.starts_with("Master")) {
+                took_over_at = Some(now_ns());
+                w.frames_b.clear();
+            }
+        }
+        if let Some(at0) = took_over_at {
+            for (at, m) in std::mem::take(&mut w.frames_b) {
+                if m.header.msg_type != T_ANNOUNCE || at < at0 + 40_000_000 {
+                    continue;
+                }
+                let Some(a) = m.announce() else { continue };
+                if a.gm_identity != w.own_identity || a.steps_removed != 0 || a.gm_priority1 != 128 || a.gm_priority2 != 128 {
+                    out.fail("daemon: Announce of a daemon that has taken over as grandmaster does not carry its own attributes", format!("gm {:02x?} steps {} priorities {}/{} ; {}", a.gm_identity, a.steps_removed, a.gm_priority1, a.gm_priority2, rendered));
+                    break;
+                }
+            }
+            out.label("daemon:took-over");
+        }
+        // the parent returns
+        w.next_parent = Instant::now();
+        let r0 = Instant::now();
+        while r0.elapsed() < Duration::from_millis(2000) {
+            let d = Instant::now() + Duration::from_millis(100);
+            w.run_until(d);
+            if w.steady() {
+                break;
+            }
+        }
+    }
+    w.keep_frames = false;
+    w.parent_ann = default_parent_ann();
+    w.parent_flags1 = 0;
+    out.nontrivial = Some(hash_of(&rendered.to_string()));
+    out.label("daemon:announces");
+    E2eOut { out, inconclusive: None }
+}
+
+// ---------------------------------------------------------------- C06 case (foreign master qualification through the real daemon)
+
+/// One case: while the parent (priority1 100) keeps announcing, a new master M with priority1 50 appears on the same
+/// segment and sends k Announces, one per interval, then falls silent. k = 1: M must never become the parent (one
+/// Announce does not qualify). k >= 6: M must be the parent within 4 intervals + 0.6 s of its second Announce, and
+/// must have been dropped (parent again the old one) within 6 intervals + 0.8 s of its last one. A master that
+/// reports stepsRemoved >= 255 or carries the daemon's own clock identity never becomes parent, however long it
+/// announces. The observation socket is polled every 20 ms.
+pub fn case_c06(w: &mut World, t: &mut Tape, tag: u32) -> E2eOut {
+    let mut out = CaseOut::new();
+    if !w.steady() {
+        let d = Instant::now() + Duration::from_millis(2000);
+        w.run_until(d);
+        if !w.steady() {
+            return E2eOut { out, inconclusive: Some(format!("daemon not in (Slave, Master) before the case: {:?}", w.port_states())) };
+        }
+    }
+    let kind = t.weighted(&[6, 1, 1]); // 0 ordinary, 1 stepsRemoved >= 255, 2 own clock identity
+    let k = match t.weighted(&[3, 1, 4]) {
+        0 => 1usize,
+        1 => 2,
+        _ => 6 + t.below(4) as usize,
+    };
+    let mut id = PortId { clock: [0x00, 0x1b, 0x19, 0xc6, (tag >> 8) as u8, tag as u8, 0, 1], port: 1 };
+    if kind == 2 {
+        id = PortId { clock: w.own_identity, port: 7 };
+    }
+    let mut ann = simple_announce(id.clock, 50, 6, 0);
+    ann.gm_identity = if kind == 2 { [0x00, 0x1b, 0x19, 0xc6, 0xff, 0xff, 0, 1] } else { id.clock };
+    if kind == 1 {
+        ann.steps_removed = *t.pick(&[255u16, 256, 65535]);
+    }
+    let mut seq: u16 = match t.below(3) {
+        0 => 65533,
+        1 => 0x7ffd,
+        _ => t.below(0x10000) as u16,
+    };
+    let kind_name = ["ordinary", "stepsRemoved>=255", "own clock identity"][kind];
+    let rendered = json!({"announces_of_the_new_master": k, "kind": kind_name, "first_sequence_id": seq});
+    out.render = rendered.clone();
+    let is_parent = |w: &World| w.observe().map(|o| o.instance.parent_ds.parent_port_identity.clock_identity.0 == id.clock && o.instance.parent_ds.parent_port_identity.port_number == id.port).unwrap_or(false);
+    let mut sent_at: Vec<Instant> = vec![];
+    let mut became_parent: Option<Instant> = None;
+    for _ in 0..k {
+        seq = seq.wrapping_add(1);
+        let mut m = announce_from(id, seq, ann, 0, 0);
+        m.header.log_interval = ANN_LOG;
+        w.send_a(&m);
+        sent_at.push(Instant::now());
+        let until = Instant::now() + Duration::from_millis(ANN_MS);
+        while Instant::now() < until {
+            let d = (Instant::now() + Duration::from_millis(20)).min(until);
+            w.run_until(d);
+            if became_parent.is_none() && is_parent(w) {
+                became_parent = Some(Instant::now());
+            }
+        }
+    }
+    let last = *sent_at.last().unwrap();
+    // keep watching after the last Announce
+    let watch_ms = 6 * ANN_MS + 800 + 400;
+    let mut dropped_at: Option<Instant> = None;
+    while last.elapsed() < Duration::from_millis(watch_ms) {
+        let d = Instant::now() + Duration::from_millis(20);
+        w.run_until(d);
+        let p = is_parent(w);
+        if became_parent.is_none() && p {
+            became_parent = Some(Instant::now());
+        }
+        if became_parent.is_some() && dropped_at.is_none() && !p {
+            dropped_at = Some(Instant::now());
+        }
+    }
+    if !w.alive() {
+        out.fail("daemon exited", rendered.to_string());
+        return E2eOut { out, inconclusive: None };
+    }
+    if kind != 0 && became_parent.is_some() {
+        out.fail(if kind == 1 { "daemon: a master reporting stepsRemoved >= 255 became the parent" } else { "daemon: a sender carrying the daemon's own clock identity became the parent" }, rendered.to_string());
+    } else if kind == 0 && k == 1 && became_parent.is_some() {
+        out.fail("daemon: a master became the parent on the strength of a single Announce", rendered.to_string());
+    } else if kind == 0 && k >= 6 {
+        match became_parent {
+            None => out.fail("daemon: a steadily announcing better master did not become the parent", format!("{} Announces over {} ms ; {}", k, k as u64 * ANN_MS, rendered)),
+            Some(at) => {
+                let since_second = at.saturating_duration_since(sent_at[1]).as_millis() as u64;
+                if since_second > 4 * ANN_MS + 600 {
+                    out.fail("daemon: a steadily announcing better master became the parent only after the bound", format!("{} ms after its second Announce (bound {} ms) ; {}", since_second, 4 * ANN_MS + 600, rendered));
+                }
+                match dropped_at {
+                    None => out.fail("daemon: a master that fell silent is still the parent after the bound", format!("{} ms after its last Announce ; {}", last.elapsed().as_millis(), rendered)),
+                    Some(d) => {
+                        let ms = d.saturating_duration_since(last).as_millis() as u64;
+                        if ms > 6 * ANN_MS + 800 {
+                            out.fail("daemon: a master that fell silent was dropped only after the bound", format!("{} ms after its last Announce (bound {} ms) ; {}", ms, 6 * ANN_MS + 800, rendered));
+                        }
+                    }
+                }
+                out.label("daemon:qualified-and-expired");
+            }
+        }
+    }
+    // let the daemon settle with the old parent again
+    let d = Instant::now() + Duration::from_millis(600);
+    w.run_until(d);
+    out.nontrivial = Some(hash_of(&rendered.to_string()));
+    out.label("daemon:foreign-master");
+    E2eOut { out, inconclusive: None }
+}
+
 // ---------------------------------------------------------------- C13 case (what the real servo programs into the real clock)
 
 /// One case: as in the C02 part the harness is the grandmaster, but its clock may drift faster than the servo is
@@ -2271,6 +2525,8 @@ pub fn worker_main(args: &[String]) -> i32 {
             "C02" => case_c02(&mut w, &mut tape),
             "C14" => case_c14(&mut w, &mut tape),
             "C13" => case_c13(&mut w, &mut tape),
+            "C11" => case_c11(&mut w, &mut tape),
+            "C06" => case_c06(&mut w, &mut tape, idx as u32),
             _ => {
                 println!("{}", json!({"fatal": format!("no end-to-end case for {}", prop)}));
                 return 2;
